@@ -305,5 +305,5 @@ func init() {
 		"testify's mock package is a black box: Called returns the Arguments given to Return for the matching expectation, Arguments.Get(i)/Error(i) is element i, On registers an expectation, a call without matching expectation fails the test, unmet expectations are reported by AssertExpectations at cleanup; none of this is proved here",
 		"a configured value of the wrong dynamic type makes the generated type assertion panic; that is accepted behaviour (safety type-assert-may-panic)",
 	}, instTrusted...),
-		note: "instance-wise, testify-style mocks of the corpus in the variants {unroll-variadic: true} and {unroll-variadic: false}: every generated method hands exactly the call's arguments to Called, exactly once, position by position (variadic: element-wise when unrolled, as one trailing slice argument - absent when empty - otherwise; never the caller's own backing array), panics when results are expected and none was configured, calls a configured provider function only with exactly the arguments and only if it came out of the configured return values, returns for every result either the configured value at its position, the zero value for a configured nil, or what a provider returned, and writes no state of its own (frame: assigns nothing); every expecter method registers the expectation under the method's name with the arguments in order; the typed Run wrapper calls the callback once with exactly the arguments (variadic rebuilt element-wise), Return/RunAndReturn hand testify exactly the values / the function. Not covered: nil for an interface-typed parameter in the Run wrapper (D12, assumed away), testify's matching semantics, cleanup assertions."})
+		note: "instance-wise, testify-style mocks of the corpus in the variants {unroll-variadic: true} and {unroll-variadic: false}: every generated method hands exactly the call's arguments to Called, exactly once, position by position (variadic: element-wise when unrolled, as one trailing slice argument - absent when empty - otherwise; never the caller's own backing array), panics when results are expected and none was configured, calls a configured provider function only with exactly the arguments and only if it came out of the configured return values, returns for every result either the configured value at its position, the zero value for a configured nil, or what a provider returned, and writes no state of its own (frame: assigns nothing); every expecter method registers the expectation under the method's name with the arguments in order; the typed Run wrapper calls the callback once with exactly the arguments (variadic rebuilt element-wise), Return/RunAndReturn hand testify exactly the values / the function. Known finding reported on every run: nil for an interface-typed fixed parameter panics in the Run wrapper (D12a). Not covered: testify's matching semantics, cleanup assertions."})
 }
